@@ -245,7 +245,7 @@ pub struct App {
     rng: Rng,
     scratch: Vec<u8>,
     dgram_next: u32,
-    dgram_blocked: bool,
+    pub dgram_blocked: bool,
     pub events_seen: u64,
     /// configured datagram send buffer (for the admission model)
     pub dgram_send_buf: Option<usize>,
@@ -983,6 +983,21 @@ impl App {
                         );
                     }
                     self.dgram_blocked = true;
+                    // an impatient sender tries something smaller that still fits: it must be
+                    // accepted, and the caller that was refused is still owed DatagramsUnblocked
+                    if space_before > 0 && self.rng.chance(40) && self.dgram_next + 1 < self.cfg.dgram_count {
+                        let len2 = self.rng.usize(space_before.min(max) + 1);
+                        let seq2 = self.dgram_next;
+                        let data2 = Self::make_dgram(key, seq2, len2);
+                        led.cnt.inc("c16.smaller_after_blocked");
+                        match conn.datagrams().send(Bytes::from(data2), false) {
+                            Ok(()) => {
+                                led.dgram(pair, is_client).sent.push((seq2, len2 as u32));
+                                self.dgram_next += 1;
+                            }
+                            Err(e) => led.violate("C16", format!("send({len2}) after a Blocked send({len}) -> {e:?} although send_buffer_space was {space_before} and max_size {max}")),
+                        }
+                    }
                     return;
                 }
                 Err(e) => {
